@@ -249,6 +249,7 @@ impl Prop for HelloPart {
                         url,
                         schemes: schemes & ((1 << SCHEMES.len()) - 1),
                         order: (std >> 10) as u8 | ((schemes >> 5) << 6),
+                        lookalikes: 0,
                     },
                     unknown_caps,
                     duplicate_first_cap: false,
